@@ -10,11 +10,12 @@ for d in "$@"; do
     cd "$wt" || exit 1
     export JAQ="$wt/target/debug/jaq"
     export JAQ_SRC="$wt"
+    SH=sh; head -1 "$d/demo.sh" | grep -q bash && SH=bash      # honour the interpreter the demo names
     CARGO_NET_OFFLINE=true cargo build --offline -q -p jaq 2>&1 | tail -2
-    sh "$d/demo.sh" >/dev/null 2>&1; echo "demo on clean tree: exit $?"
+    $SH "$d/demo.sh" >/dev/null 2>&1; echo "demo on clean tree: exit $?"
     if git apply "$d/patch.diff"; then
       CARGO_NET_OFFLINE=true cargo build --offline -q -p jaq 2>&1 | tail -2; echo "build with patch: exit $?"
-      sh "$d/demo.sh" >/dev/null 2>&1; echo "demo with patch: exit $?"
+      $SH "$d/demo.sh" >/dev/null 2>&1; echo "demo with patch: exit $?"
       CARGO_NET_OFFLINE=true cargo test --workspace --offline -q 2>&1 | grep -E "test result" | awk '{p+=$4; f+=$6} END {print "test suite with patch: passed " p ", failed " f}'
     else
       echo "patch does not apply"
